@@ -63,12 +63,15 @@ def run(ctx):
     def is_root_map(k, t):
         return k.startswith('Option::map') and ('closure@' + ctag) in t.callee
     maps = P.call_sites(T, is_root_map)
-    ctx.floor('C02.r2', 'Option::map over MerkleProof::root result', len(maps), 1)
-    ctx.guard('C02.r2', T, is_root_map, 'Some(true)', tsinks, unconditional=False, gname='MerkleProof::root(..).map(root == merkle_root)')
+    ctx.floor('C02.r2', 'Option::map over the merkle proof root result', len(maps), 1)
+    ctx.guard('C02.r2', T, is_root_map, 'Some(true)', tsinks, unconditional=False, gname='strict_merkle_proof_root(..).map(root == merkle_root)')
     # the Option that is mapped comes from MerkleProof::root
     mt = maps[0][1]
-    ctx.ob('C02.r2', T.name, 'mapped Option derives from MerkleProof::root',
-           du.from_call(mt.args[0], lambda k: k.endswith('MerkleProof::root')), at=mt.span)
+    # F31/F33: merkle_cbt's MerkleProof::root drops a node without sibling or lemma (a foreign leaf rides on the
+    # proof of a committed one) and does unchecked index arithmetic: the root must come from the strict local one
+    ctx.ob('C02.r2', T.name, 'mapped Option derives from the strict merkle proof root (not merkle_cbt MerkleProof::root)',
+           du.from_call(mt.args[0], lambda k: k.endswith('strict_merkle_proof_root'))
+           and not du.from_call(mt.args[0], lambda k: k.endswith('MerkleProof::root')), at=mt.span)
     # every loop iteration passes the map: the filtered_blocks `next` cannot cycle around it
     cfg = P.cfg(T)
     # closure result is an eq between transactions_root and merkle_root
